@@ -79,9 +79,11 @@ PLANS = {
              "layout branch walked over its values on three backgrounds + random joint assignments"),
     "C05": dict(
         mc=PARSER_MC,
-        families=[fam("frag", F.fam_frag, twin_merge=E.tag_twin_merge, need_classes=["open", "continue", "deliver"]),
+        families=[fam("frag", F.fam_frag, twin_merge=E.tag_twin_merge, need_classes=["open", "continue", "deliver"],
+                      builds=("std", "none")),
+                  fam("capacity", F.fam_capacity, builds=("none",)),
                   fam("corpus", F.fam_corpus)],
-        custom=[dict(run=walk_std)],
+        custom=[dict(run=walk_std), dict(run=walk_none)],
         rule="ReassemblyInv over all histories of the bounded model; every path of length <= D over 22 abstract lines replayed; "
              "messages split into 2..9 fragments with histories, ids and noise, twin unfragmented decode"),
     "C06": dict(
